@@ -7,6 +7,7 @@ import Drpc.Metadata
   drpcconn) have the literal/operator fingerprint the model was written against, and the packet kinds
   the scoping model switches on are the ones in the source.  Regenerated from /repo on every run.
 -/
+set_option maxRecDepth 100000
 namespace Drpc.Tie.C11
 open Drpc
 
